@@ -1,5 +1,7 @@
 import GB.Base.Proto
 import GB.C15.Spec
+import GB.C15.Agg
+import GB.C15.Once
 /-
   C15 driver: judges one case line of the `c15` area.
 
@@ -440,7 +442,178 @@ def secondCloseModel : String :=
   | some s => (match sendOnDone s with | .panics => "panic" | .delivered => "returned" | .blocked => "blocked")
   | none => "stuck"
 
+/-! ### rr: the real ReflectionRouter — trace validation against the aggregate-watcher LTS (`Agg.step`, n = 2) -/
+
+structure RV where
+  g : Agg.G Nat
+  /-- version the resolver delivered last (its hash fields) -/
+  last : Option Nat
+  polls : Nat
+  inPoll : Bool
+  owes : Option Nat
+  removed : Bool
+  skipped : Bool
+  updates : Nat
+
+def memberName (j : Nat) : String := if j = 0 then "pattern" else "service"
+
+def rrBegin (v : RV) (e : Nat) : Except String RV :=
+  if v.g.cur.isNone then
+    match Agg.step v.g (.begin e) with
+    | some g => .ok { v with g := g }
+    | none => .error "DIFF model=aggregate-call-not-enabled"
+  else .ok v
+
+/-- members before `upto` that the log shows nothing for: only a CLOSED member may stay silent -/
+def rrSkipTo (atPollEnd : Bool) : Nat → RV → Nat → Except String RV
+  | 0, v, _ => .ok v
+  | fuel + 1, v, upto =>
+    if v.g.pos < upto then
+      if v.g.closed v.g.pos then
+        match Agg.step v.g .deliver with
+        | some g => rrSkipTo atPollEnd fuel { v with g := g, skipped := true } upto
+        | none => .error "DIFF model=deliver-not-enabled"
+      else if atPollEnd then
+        .error s!"VIOL update-missing member={memberName v.g.pos} open-watcher-did-not-get-the-update-of-poll={v.polls - 1}"
+      else
+        -- a later member applies the call while an earlier open one has not yet: another ORDER than the model's
+        -- (the property does not fix the order; whether the earlier member is served at all is judged at the poll end)
+        .error s!"DIFF model=fan-out-order member={memberName v.g.pos}-before-{memberName upto} poll={v.polls - 1}"
+    else .ok v
+
+def rrApply (v : RV) (j : Nat) : Except String RV :=
+  if v.removed then .error s!"VIOL update-applied-after-Remove-returned member={memberName j}" else
+  if !v.inPoll then .error "DIFF model=update-outside-poll" else
+  match v.owes with
+  | none => .error s!"VIOL update-without-change poll={v.polls - 1} member={memberName j}"
+  | some e =>
+    match rrBegin v e with
+    | .error x => .error x
+    | .ok v =>
+      match rrSkipTo false 3 v j with
+      | .error x => .error x
+      | .ok v =>
+        if v.g.pos ≠ j then .error s!"VIOL update-delivered-twice-or-out-of-order member={memberName j} poll={v.polls - 1}"
+        else if v.g.closed j then .error s!"VIOL update-applied-after-watcher-Close member={memberName j}"
+        else match Agg.step v.g .deliver with
+          | some g => .ok { v with g := g }
+          | none => .error "DIFF model=deliver-not-enabled"
+
+def rrCloseMember (v : RV) (j : Nat) : Except String RV :=
+  if v.g.cpos ≠ some j then .error s!"DIFF model=watcher-Close-order member={memberName j}"
+  else match Agg.step v.g .closeMember with
+    | some g => .ok { v with g := g }
+    | none => .error "DIFF model=closeMember-not-enabled"
+
+def rrExpected (g : Agg.G Nat) (j : Nat) : Nat :=
+  if g.closed j then 0 else match (g.applied j).getLast? with | some m => m | none => 0
+
+def rrToken (versions : List Nat) (v : RV) (t : String) : Except String RV :=
+  if t = "b" then
+    if v.removed then .error "VIOL poll-after-Remove-returned"
+    else if v.inPoll then .error "DIFF model=poll-start-inside-poll"
+    else
+      let ver := match versions[min v.polls (versions.length - 1)]? with | some m => m | none => 0
+      .ok { v with inPoll := true, polls := v.polls + 1, owes := if v.last = some ver then none else some ver }
+  else if t = "pu" then rrApply v 0
+  else if t = "su" then rrApply v 1
+  else if t = "s" then
+    if !v.inPoll then .error "DIFF model=poll-end-outside-poll" else
+    match v.owes with
+    | none => .ok { v with inPoll := false }
+    | some e =>
+      match rrBegin v e with
+      | .error x => .error x
+      | .ok v =>
+        match rrSkipTo true 3 v 2 with
+        | .error x => .error x
+        | .ok v =>
+          match Agg.step v.g .finish with
+          | some g => .ok { v with g := g, last := some e, inPoll := false, owes := none, updates := v.updates + 1 }
+          | none => .error "DIFF model=finish-not-enabled"
+  else if t = "rc" then
+    match Agg.step v.g .closeCall with
+    | some g => .ok { v with g := g }
+    | none => .error "DIFF model=Remove-called-twice"
+  else if t = "pc" then rrCloseMember v 0
+  else if t = "sc" then rrCloseMember v 1
+  else if t = "rr" then
+    if v.g.cpos ≠ some 2 then .error "VIOL Remove-returned-before-both-watchers-were-closed"
+    else if v.inPoll then .error "VIOL Remove-returned-while-a-poll-is-in-progress"
+    else .ok { v with removed := true }
+  else if t.startsWith "q" then
+    match ((t.drop 1).toString.splitOn ".").map String.toNat? with
+    | [some p, some s] =>
+      if v.inPoll then .error "DIFF model=probe-inside-poll"
+      else if p ≠ rrExpected v.g 0 then
+        .error s!"VIOL router-state member=pattern routes={p} expected={rrExpected v.g 0} (the last update the watcher applied, none once closed)"
+      else if s ≠ rrExpected v.g 1 then
+        .error s!"VIOL router-state member=service routes={s} expected={rrExpected v.g 1} (the last update the watcher applied, none once closed)"
+      else .ok v
+    | _ => .error "BAD probe"
+  else if t.startsWith "!" then
+    if v.inPoll ∧ v.owes.isSome ∧ v.g.cur.isNone ∧ v.g.cpos.isNone then
+      .error s!"VIOL update-missing poll={v.polls - 1} nothing-applied-within-the-bound({t})"
+    else .error s!"DIFF model=harness{t}"
+  else .error s!"BAD token {t}"
+
+def rrReplay (versions : List Nat) : RV → List String → Except String RV
+  | v, [] => .ok v
+  | v, t :: ts => match rrToken versions v t with
+    | .ok v' => rrReplay versions v' ts
+    | .error e => .error e
+
+def handleRR (mode vs closeAt : String) (out : List String) : String :=
+  match (vs.splitOn ",").mapM String.toNat? with
+  | none => "BAD rr versions"
+  | some versions =>
+    if out.any (fun t => t.startsWith "BAD" ∨ t.startsWith "PANIC") then s!"DIFF model=no-panic got={" ".intercalate out}" else
+    let v0 : RV := { g := Agg.G.init 2, last := none, polls := 0, inPoll := false, owes := none, removed := false,
+                     skipped := false, updates := 0 }
+    match rrReplay versions v0 out with
+    | .error e => e
+    | .ok v =>
+      if !v.removed then "DIFF model=log-incomplete"
+      else
+        let nt := if v.updates ≥ 2 ∨ v.skipped then " nt" else ""
+        s!"OK{nt} b=rr-{mode}{closeAt}" ++ (if v.skipped then " b=rr-updateOnClosedWatcher" else "") ++
+          (if v.g.past.length > (v.g.applied 1).length ∧ (v.g.applied 0).length > (v.g.applied 1).length then " b=rr-membersDiffer" else "")
+
+/-! ### once: the real `sync.OnceFunc` against runs of the Once LTS -/
+
+/-- schedule A: the callers run one after the other; schedule B: everybody passes the fast-path load first,
+    then they go through the mutex one by one. -/
+def onceSchedule (n : Nat) (allEnterFirst : Bool) : List Once.L :=
+  let slow (i : Nat) : List Once.L := [.lock i, .check i, .fret i, .store i, .unlock i]
+  if allEnterFirst then
+    (List.range n).map (fun i => Once.L.enter i) ++ (List.range n).flatMap (fun i => match i with
+      | 0 => slow 0
+      | i => [.lock i, .check i, .unlock i])
+  else
+    (List.range n).flatMap (fun i => match i with
+      | 0 => Once.L.enter 0 :: slow 0
+      | i => [.enter i])
+
+def onceModel (n : Nat) : Option String :=
+  match GB.LTS.run Once.step Once.S.init (onceSchedule n false), GB.LTS.run Once.step Once.S.init (onceSchedule n true) with
+  | some a, some b =>
+    let early (s : Once.S) : Nat := ((List.range n).filter (fun i => s.pc i == .returned && s.completed == 0)).length
+    if a.execs = b.execs ∧ early a = early b then some s!"execs={a.execs} early={early a}" else none
+  | _, _ => none
+
+def handleOnce (n : String) (out : List String) : String :=
+  match n.toNat? with
+  | none => "BAD once"
+  | some n =>
+    match onceModel n with
+    | none => "BAD once-model-schedules-disagree"
+    | some m =>
+      if " ".intercalate out = m then s!"OK{if n ≥ 2 then " nt" else ""} b=once{min n 3}"
+      else s!"DIFF model={m}"
+
 def handle : Handler
+  | "rr" :: [mode, vs, closeAt], out => handleRR mode vs closeAt out
+  | ["once", n], out => handleOnce n out
   | "opts" :: rest, out => handleOpts rest out
   | ["agg", n, evs], [out] => handleAgg n evs out
   | ["close2", "seq"], out =>
@@ -481,6 +654,8 @@ def handle : Handler
       let spec := if ok then some (sameSet a b) else none
       verdictEq out (protoPre a == protoPre b) spec "hfile"
     | _, _ => "BAD hex"
-  | _, _ => "BAD c15 line"
+  | _, out =>
+    -- a panic of the code under test on a line of any op is a disagreement with the model, not a malformed line
+    if out.any (fun t => t.startsWith "PANIC") then s!"DIFF model=no-panic got={" ".intercalate out}" else "BAD c15 line"
 
 end GB.C15
